@@ -3,7 +3,7 @@
    Only ExtrOcamlBasic is used: nat, N, Z, positive stay the extracted inductives. *)
 From Coq Require Import List NArith ZArith Extraction ExtrOcamlBasic.
 From LMBase Require Import Res ListX IEEE.
-From LMIo Require Import IoBase IoNom IoJaspar IoUniprobe IoPrint IoPrintU IoRoundtripU IoErr.
+From LMIo Require Import IoBase IoNom IoJaspar IoUniprobe IoPrint IoPrintU IoRoundtripU IoErr IoPoll.
 
 Definition n_matrix_of := @matrix_of.
 Definition z_of_N := Z.of_N.
@@ -13,6 +13,7 @@ Extraction "io_model.ml"
   mk_stream utf8_decode utf8_encode
   jaspar_read jaspar16_read uniprobe_read j_calls uniprobe_calls j_record j16_record
   of_stream jaspar_read_e jaspar16_read_e jaspar_calls_e jaspar16_calls_e uniprobe_read_e uniprobe_calls_e
+  jaspar_polls_e jaspar16_polls_e uniprobe_polls_e jaspar_polls_e_unguarded end_final first_nonrec
   j_read_buggy j_new j_next
   Dna Protein
   print_jaspar print_jaspar16 print_uniprobe print_file
